@@ -19,7 +19,10 @@ func readPointer(s string) (Path, error) {
 		var element JsonNode
 		var err error
 		number, err := strconv.Atoi(t)
-		if err == nil {
+		// Only the canonical form of a non-negative integer is an
+		// array index (RFC 6901 section 4). Tokens such as "01", "+1"
+		// or "-1" are object keys.
+		if err == nil && number >= 0 && strconv.Itoa(number) == t {
 			element, err = NewJsonNode(number)
 		} else {
 			element, err = NewJsonNode(t)
